@@ -630,3 +630,21 @@ PROPS["C42"]["outside"] = ("the unstake / claim bookkeeping around calculate_red
                            "in epoch_change")
 PROPS["C42"]["assumptions"] += ["Vault::amount / ResourceManager::total_supply return arbitrary non-negative Decimals "
                                 "(environment stubs); in the round trip they return stake + xrd and supply + minted units"]
+
+
+PROPS["C10"] = dict(
+    title="Funds behind a live proof cannot be withdrawn",
+    functions=["radix_engine::blueprints::resource::FungibleVaultBlueprint::{lock_amount, unlock_amount, internal_take, "
+               "internal_put}", "radix_engine_interface::blueprints::resource::{LockedFungibleResource::amount, "
+               "LiquidFungibleResource::{take_by_amount, put}}"],
+    bounds="one lock / unlock step from an arbitrary vault state: any liquid balance <= 10^22 XRD, <= 3 (lock: <= 2) "
+           "distinct locked amounts with any counts 1..=1000, any requested amount; counts compared for an arbitrary probe "
+           "amount",
+    outside="non-fungible vaults and buckets (id sets), the proof objects themselves (proof_common.rs: cloning / dropping "
+            "calls unlock), take / take_advanced / recall / burn (they operate on the liquid balance only, which is what "
+            "makes locked funds unreachable), divisibility checks, more than 3 simultaneously locked distinct amounts",
+    assumptions=["the actor's field store returns what was last written (environment stub; natively a MockApi with a real "
+                 "SBOR field store)", "IndexMap behaves as a dictionary (slot-array model, keys() in slot order)"],
+    trusted_base=MIR_TB,
+    mir=True,
+)
